@@ -220,7 +220,9 @@ CLAIMED['C10'] = dict(
          'insert / remove / pop, including ones that grow the list, an alias holding the original address (before one or two '
          'forwardings) sees the same length and reads / writes the same element cells as the live vector, and the forwarded block '
          'stays well formed; C10.K1 Value == and Hash of a list reached through an alias taken before it grew: reported as the '
-         'known finding F7 (identity is the raw address; aliases become unequal and map keys are lost after growth). Identity of '
+         'known finding F7 (identity is the raw address; aliases become unequal and map keys are lost after growth); C10.K2 the map\'s key '
+         'equality (real <Value as PartialEq>::eq on (v, v)) and Hash for every well-formed value in both representations: a key finds '
+         'itself - known finding F61 (NaN in the tagged-enum build: IEEE == is not reflexive, a NaN key is never found again). Identity of '
          'maps / instances under mutation (no forwarding involved) and the partial root rewriting (scan_roots) are not yet machine '
          'checked.',
     note='Trusted: rustc MIR printer, mirsym, block memory model, Z3. F7 is a genuine defect recorded in known_findings.json '
